@@ -29,9 +29,9 @@ PID = "C18"
 META = {
     "ready": True,
     "category": "proof",
-    "technique": "Lean 4 termination / native-depth theorems for the traversal algorithms (equality worklist, marker, cycle collector, drop handler; recursive hash / Display / drop glue) over arbitrary, possibly cyclic value graphs + traversal table and model configuration regenerated from the source + the real engine on deep / wide / shared / cyclic shapes, one child process per (shape, operation, size, stack)",
-    "level_text": "Theorems (lean/SteelVerif/C18/Props.lean) about the model M of the traversals, for ALL graphs (any depth, width, sharing, cycles; indices unrestricted): iterative_constant_depth - every operation that is a worklist uses one native frame (for the code as it is: marker, cycle collector, sending to a thread - for these three the bound holds by construction of the model, worklist_depth_by_construction; the evidence that the code's visit_* methods do not recurse is the regenerated table, worklists_do_not_recurse; eq_constant_depth_leaf_keys: equal? when map keys / set members are leaves); print_depth_bounded - Display stays below the depth limit 128 when no box / hash map / hash set is printed; eq_terminates_cyclic / mark_terminates_cyclic / print_terminates_cyclic - the worklists with a visited set end on every graph within |g|^2(d+1)+2 resp. |g|(d+1)+|roots|+1 rounds (measure: unvisited pairs / nodes) when every descending arm is checked / every container is marked; drop_terminates (every graph, cycles are leaked not looped, one reference per round), drop_frees_all_acyclic; recursive_depth_linear / no_constant_bound_hash (D7: Hash for SteelVal uses n+1 native frames on a chain of n containers) with recursive_depth_linear_partial (height <= available frames => hashed), hash_chain_overflows, hash_cycle_overflows, drop_depth_linear, print_depth_linear_boxes, eq_key_depth_linear. The full termination statements are FALSE for the code as it is (configuration Cfg.current, whose flags are regenerated from the source and checked by cfg_current_is_scanned): the partial statements hold under decidable guards (eq_terminates_cyclic_partial, mark_terminates_cyclic_partial, print_terminates_cyclic_partial) and the negations are proved from families of graphs: not_eq_terminates_cyclic (two rings of boxes of any length), not_mark_terminates_cyclic and not_print_terminates_cyclic (ring of strong boxes), mark_not_polynomial (doubling dag: 2^(n+1)-1 rounds), print_box_ring_unbounded. Table obligations by decide over the regenerated GenTraversals.lean: all_ops_classified, no_unbounded_recursion_partial (no native recursion outside the listed classes), known_recursive_present, worklists_do_not_recurse, scanned_kind_sets. What is NOT a theorem: that the Rust code is the model - that is the scan plus the run of the real engine: every shape x operation x size x stack in its own child process (8 MiB main thread, 2 MiB thread, wall-clock bound), verdict = survival + termination + result lines and printed text equal to what the driver computes from S on the same graph.",
-    "level_note": "Trusted: Lean kernel (axioms propext, Classical.choice, Quot.sound), the harness / python comparison, translate/c18_traversals.py (regex / brace matching over impl Hash, format_with_cycles, RecursiveEqualityHandler::visit, the three visitors, drop_impls, channel_send, into_serializable_value). Modelled, not verified: native frame sizes (the model says whether depth grows with the value, the run says whether 8 / 2 MiB are exceeded at 10^3, 10^5, 10^6), wall-clock time (quadratic re-entrant printing shows as a timeout), the prelude's Scheme-level printer (runs on the VM stack), serialize-value (table only), custom types, transducers, continuations, syntax objects as value kinds (classified in the table, not exercised). Failing cases are attributed to an open finding class only if the model predicts that failure for that case through the flag the class stands for.",
+    "technique": "Lean 4 termination / native-depth / heap-space theorems for the traversal algorithms over arbitrary, possibly cyclic value graphs: the worklist visitors as a machine with an explicit native call stack (marker, cycle collector), the loop models (equality worklist incl. nested key comparison, marker, cycle collector, drop handler, sweep), the recursive ones (hash, Display with depth counter and cycle table, prelude printer, serialize-value, drop glue) + traversal table, model configuration AND CALL GRAPH of the visitor code regenerated from the source (no path from a visit_* method back into a visit loop; longest chain of nested calls) + the real engine on deep / wide / shared / cyclic shapes and on construction primitives with 10^6 elements, one child process per (shape, operation, size, stack)",
+    "level_text": "Theorems (lean/SteelVerif/C18/Props.lean) about the model M of the traversals, for ALL graphs (any depth, width, sharing, cycles; indices unrestricted). Native stack: machine_native_stack_bounded - the visitor machine mStep (one frame per active call visit -> visit_<kind> -> mark_heap_reference/add -> push_back, queue and marks as heap state) never holds more than 4 frames in any reachable state, for every graph, child order, tracked set; marker_loop_is_machine_run - every round of the marker's loop model is a run of that machine from loop head to loop head; iterative_constant_depth - nativeDepth (for mark/collect: MEASURED on the machine) <= 4 for every worklist operation; worklist_native_stack_scanned - in the call graph regenerated from the source every chain of nested calls below the visit of the marker, its parallel copy, the cycle collector and the drop handler is <= 5 deep (call_chain_bounded: an acyclic call graph bounds every call chain; worklist_call_graphs_acyclic by decide: a recursive path between visitor methods breaks it). Heap space: worklist_space_linear (queue <= |roots|+|edges| in every reachable state and termination within |roots|+|edges|+1 rounds, when every container is marked; _partial for the code as it is on values without immutable containers), drop_worklist_space_linear (every graph). print_depth_bounded - Display stays below the depth limit 128 when no hash map / hash set is printed; print_output_finite - the second printing phase with the cycle table returns a finite text within 129 frames for every graph and every label table; prelude_print_terminates_partial / not_prelude_print_terminates (K18k: the labelled slot of a mutable struct field is never seen by print.scm). eq_terminates_cyclic / eq_nested_terminates_current (every level of nested key comparison) / mark_terminates_cyclic / print_terminates_cyclic - the worklists with a visited set end on every graph within polynomially many rounds when every descending arm is checked / every container is marked; sweep_frees_exactly_unmarked, collect_frees_exactly_unmarked (unreached cycles of heap slots are reclaimed), rc_cycle_leaked (cycles of strong boxes are not); drop_terminates, drop_frees_all_acyclic; recursive_depth_linear / no_constant_bound_hash (D7/K18a), serialize_depth_linear / no_constant_bound_serialize (K18e), hash_chain_overflows, hash_cycle_overflows, drop_depth_linear (K18f), print_depth_linear_maps (K18b), eq_key_depth_linear + eq_reenters_itself_scanned (K18d: the re-entry of == is a cycle of the scanned call graph). The full termination statements are FALSE for the code as it is (Cfg.current, flags regenerated from the source: cfg_current_is_scanned): partial statements under decidable guards (eq_terminates_cyclic_partial, mark_terminates_cyclic_partial, print_terminates_cyclic_partial) and negations from families of graphs (not_eq_terminates_cyclic, not_mark_terminates_cyclic, not_print_terminates_cyclic, mark_not_polynomial, print_box_ring_unbounded). Table obligations by decide over GenTraversals.lean: all_ops_classified, no_unbounded_recursion_partial, known_recursive_present, worklists_do_not_recurse (now also fails when a visit_* method reaches visit through other methods), worklist_chain_depths, scanned_kind_sets. What is NOT a theorem: that the Rust code is the model - that is the scan plus the run of the real engine: every shape x operation x size x stack in its own child process (8 MiB main thread, 2 MiB thread, CPU bound), verdict = survival + termination + result lines and printed text equal to what the driver computes from S on the same graph; construction primitives (apply list/vector/hash, map, append, list->vector, transduce, sort ...) on 10^6 elements with the element count as S; serialize-value on every cycle; the machine against the loop model on every generated shape.",
+    "level_note": "Trusted: Lean kernel (axioms propext, Classical.choice, Quot.sound), the harness / python comparison, translate/c18_traversals.py (regex / brace matching over impl Hash, format_with_cycles, RecursiveEqualityHandler::visit, the visitors, drop_impls, channel_send, into_serializable_value; call graph: self.m(..), Self::m(..), Type::m(..), calls on locals / parameters of a visitor type, a visitor handed to a function = all functions of that name in the crate, one node per impl/trait; NOT seen: closures, drop glue of temporaries, a function calling its own name on a value of its own type). Modelled, not verified: native frame sizes (the model counts frames; the run says whether 8 / 2 MiB are exceeded at 10^3, 10^5, 10^6), wall-clock time (quadratic re-entrant printing shows as a timeout; (apply append <n lists>) is quadratic and asked at 10^4 only), construction of values (run only), custom types, transducers, continuations, syntax objects as value kinds (classified in the table and the call graph, not exercised), the cycle collector machine vs its loop model (compared by the check, no simulation theorem), reachability = marked set (C04). Failing cases are attributed to an open finding class only if the model predicts that failure for that case through the flag the class stands for.",
 }
 
 BIN = "c18"
@@ -65,8 +65,36 @@ MIX = ["(list 1 acc)", "(vector acc 2)", "(node acc)", "(cons acc 3)", "(box acc
        "(mnode acc)", "(cons 4 acc)"]
 
 
+# "Creating": construction primitives applied to huge inputs (name -> (expression over {n}, expression counting the elements of d))
+BUILT = {
+    "apply-list": ("(apply list (range 0 {n}))", "(length d)"),
+    "apply-vector": ("(apply vector (range 0 {n}))", "(vector-length d)"),
+    "apply-immutable-vector": ("(apply immutable-vector (range 0 {n}))", "(vector-length d)"),
+    "list->vector": ("(list->vector (range 0 {n}))", "(vector-length d)"),
+    "vector->list": ("(vector->list (make-vector {n} 7))", "(length d)"),
+    "map": ("(map (lambda (x) (list x)) (range 0 {n}))", "(length d)"),
+    "append": ("(append (range 0 {n}) (list 1))", "(- (length d) 1)"),
+    "reverse": ("(reverse (range 0 {n}))", "(length d)"),
+    "apply-hash": ("(apply hash (range 0 (* 2 {n})))", "(hash-length d)"),
+    "apply-hashset": ("(apply hashset (range 0 {n}))", "(hashset-length d)"),
+    "list->hashset": ("(list->hashset (range 0 {n}))", "(hashset-length d)"),
+    "string->list": ("(string->list (make-string {n} #\\a))", "(length d)"),
+    "list->string": ("(list->string (map (lambda (x) #\\a) (range 0 {n})))", "(string-length d)"),
+    "foldl-cons": ("(foldl cons '() (range 0 {n}))", "(length d)"),
+    "transduce": ("(transduce (range 0 {n}) (mapping (lambda (x) x)) (into-list))", "(length d)"),
+    "apply-string-append": ("(apply string-append (map (lambda (x) \"ab\") (range 0 {n})))", "(/ (string-length d) 2)"),
+    "vector-append": ("(apply vector-append (map (lambda (x) (vector x)) (range 0 {n})))", "(vector-length d)"),
+    "sort": ("(sort (range 0 {n}) >)", "(length d)"),
+    "filter": ("(filter even? (range 0 (* 2 {n})))", "(length d)"),
+    # quadratic in the number of arguments (1 s at 10^4, 11 s at 3*10^4): it ends and uses no native stack; asked at 10^4
+    "apply-append": ("(apply append (map list (range 0 {n})))", "(length d)"),
+}
+
+
 def build_src(shape, n, name="d", base=None):
     """Steel source defining global `name` as the shape at depth / width n."""
+    if shape.startswith("built:"):
+        return "(define %s %s)\n" % (name, BUILT[shape[6:]][0].format(n=n))
     if shape in CHAINS:
         wrap, b = CHAINS[shape]
         b = base if base is not None else b
@@ -182,6 +210,9 @@ def op_pieces(op, shape, n):
     R = lambda e: "(begin (simple-display \"R \") (simple-display %s) (newline))" % e   # noqa: E731
     if op == "create":
         return [mk("d"), R("\"built\"")], {"R": ["built"]}
+    if op == "create-count":
+        # S: the constructed value has exactly the n elements it was built from
+        return [mk("d"), R(BUILT[shape[6:]][1])], {"R": [str(n)]}
     if op == "equal-copy":
         return [mk("d"), mk("e"), R("(equal? d e)")], {"R": ["BOOL" if cyc else "#true"]}
     if op == "equal-self":
@@ -238,6 +269,7 @@ def _thread_result_src(build):
     return "(define t (spawn-native-thread (lambda () %s d)))\n(define r (thread-join! t))" % inner
 
 
+# (create-count belongs to the `built:` shapes only)
 OPS_ALL = ["create", "equal-copy", "equal-self", "equal-diff", "host-eq", "hash-key", "hash-set", "hash-code", "host-hash",
            "display-port", "write-port", "print-port", "host-display", "host-debug", "send-channel", "thread-result",
            "gc-live", "gc-dead", "drop", "host-drop", "serialize"]
@@ -454,7 +486,7 @@ def model_shape(shape):
 
 # which predictions of the model concern a harness operation (every case ends with the value being dropped)
 INVOLVED = {
-    "create": [], "equal-copy": ["eq", "eq-key-depth"], "equal-self": ["eq", "eq-key-depth"], "equal-diff": ["eq", "eq-key-depth"],
+    "create": [], "create-count": [], "equal-copy": ["eq", "eq-key-depth"], "equal-self": ["eq", "eq-key-depth"], "equal-diff": ["eq", "eq-key-depth"],
     "host-eq": ["eq", "eq-key-depth"], "hash-key": ["hash"], "hash-set": ["hash"], "hash-code": ["hash"], "host-hash": ["hash"],
     "display-port": ["collect", "print-depth", "prelude-print"], "write-port": ["collect", "print-depth"],
     "print-port": ["collect", "print-depth", "prelude-print"],
@@ -529,7 +561,7 @@ def explain(shape, op, verdict, detail, pred, table):
     if shape in KEYED:
         involved += ["hash", "eq-key-depth"]
     for mo in involved:
-        if mo == "serialize":
+        if mo == "serialize" and "serialize" not in p:
             vs = []
             if shape.startswith("cycle:"):
                 vs = ["HeapAllocated", "MutableVector", "CustomStruct", "Closure"]
@@ -545,7 +577,7 @@ def explain(shape, op, verdict, detail, pred, table):
         cls, cause = p[mo][0], p[mo][1]
         if cls == "constant" or cause == "-":
             continue
-        depth_op = mo in ("hash", "print-depth", "drop-depth", "eq-key-depth", "prelude-print")
+        depth_op = mo in ("hash", "print-depth", "drop-depth", "eq-key-depth", "prelude-print", "serialize")
         if verdict == "crash" and (depth_op or cls == "diverges"):
             causes.append(cause)
         elif verdict == "timeout":
@@ -566,10 +598,10 @@ def explain(shape, op, verdict, detail, pred, table):
 
 # the plan -----------------------------------------------------------------------------------------------------------
 CYCLE_OPS = ["create", "equal-copy", "equal-self", "host-eq", "hash-code", "display-port", "host-display", "gc-live", "gc-dead",
-             "send-channel"]
+             "send-channel", "serialize"]
 
 
-QUICK_CYCLE_OPS = ["equal-copy", "hash-code", "display-port", "host-display", "gc-live", "gc-dead"]
+QUICK_CYCLE_OPS = ["equal-copy", "hash-code", "display-port", "host-display", "gc-live", "gc-dead", "serialize"]
 # shapes whose Display re-enters Display (quadratic cycle detection): in the quick tier one printing case per shape at 10^5 is
 # enough to see the class, every further one only burns its whole time bound
 REENTRANT_PRINT = ("mixed", "map-value")
@@ -674,6 +706,12 @@ def plan(ctx, rng):
             cases.append((shape, op, n, "main", 30 if quick else 90, False))
             if not quick:
                 cases.append((shape, op, n, "thread", 90, False))
+    # creating: construction primitives on huge inputs
+    for b in BUILT:
+        n = 10000 if b == "apply-append" else 10 ** 6
+        for op in ("create-count", "drop") if quick else ("create-count", "create", "drop", "gc-dead", "equal-copy", "hash-code", "send-channel"):
+            for st in (["thread"] if quick else ["main", "thread"]):
+                cases.append(("built:" + b, op, n, st, 30 if quick else 90, False))
     # cycles
     cells = list(CELLS)
     maxlen = 3 if quick else 6
@@ -779,6 +817,38 @@ def run(ctx):
     rc, pred, table = predictions(shapes)
     if rc != 0 or not pred:
         ctx.violation("C18-driver.txt", "the model driver failed (rc=%d)" % rc, no_input=True)
+    # the visitor machine (explicit native call stack) against the loop model, on every shape the model can build: same marked
+    # set, never more than 4 frames, the queue never longer than 1 + |edges|
+    mq = []
+    for sh in shapes:
+        ms = model_shape(sh)
+        if not ms:
+            continue
+        size = 1 if ms.startswith("ring:") else (10 if ms == "dag" else 300)
+        q = "machine %s %d" % (ms, size)
+        if q not in mq:
+            mq.append(q)
+    machine_bad, machine_rows = [], 0
+    if mq:
+        rc3, out3 = ask_driver(mq)
+        for l in out3:
+            m = re.match(r"machine shape=(\S+) n=(\d+) same=(\S+) stack=(\d+) queue=(\d+) edges=(\d+) ended=(\S+)", l)
+            if not m:
+                continue
+            machine_rows += 1
+            # where the marker of the model does not end (a ring of strong boxes: K18g) only the stack bound is asked
+            if m.group(3) != "true" or int(m.group(4)) > 4 or (m.group(7) == "true" and int(m.group(5)) > int(m.group(6)) + 1 and
+                                                                 not (set(pred.get(m.group(1), {}).get("mark", ("",))[0:1]) & {"exponential"})):
+                machine_bad.append(l)
+        if machine_rows != len(mq):
+            machine_bad.append("driver answered %d of %d machine queries" % (machine_rows, len(mq)))
+    for sh, p_ in pred.items():
+        for mo in ("mark-stack", "collect-stack"):
+            if mo in p_ and p_[mo][0] != "constant":
+                machine_bad.append("predict %s %s: %s" % (sh, mo, p_[mo]))
+    if machine_bad:
+        ctx.violation("C18-machine.txt", "the visitor machine of the model disagrees with its loop model, or its native stack / queue "
+                      "exceeds the proved bounds:\n" + "\n".join(machine_bad[:40]) + "\n", no_input=True)
     # S: expected texts
     TEXT_MODE = {"display-port": "display", "host-display": "host", "write-port": "host"}
     want = {}
@@ -859,7 +929,8 @@ def run(ctx):
             # the tie in the other direction: where the model says the code never returns, the code must not return
             mp = pred.get(model_shape(shape) or "", {})
             strict = {"equal-copy": ["eq"], "host-eq": ["eq"], "gc-live": ["mark"], "hash-code": ["hash"],
-                      "display-port": ["collect", "prelude-print"], "host-display": ["collect", "print-depth"]}
+                      "display-port": ["collect", "prelude-print"], "host-display": ["collect", "print-depth"],
+                      "serialize": ["serialize"]}
             for mo in strict.get(op, []):
                 if shape.startswith("cycle:") and mo in mp and mp[mo][0] == "diverges":
                     stats["model_disagreements"].append("%s %s stack=%s: model op %s diverges (%s), the real engine answered" % (
@@ -926,6 +997,7 @@ def run(ctx):
         "texts_compared_with_S": stats["text_checked"], "timeouts_asked_again_alone": stats["retried"], "matrix": stats["matrix"], "known_classes": stats["by_class"],
         "model_predictions": dict((s, dict((k, v[0] + ":" + v[1]) for k, v in p.items() if v[0] != "constant")) for s, p in pred.items()),
         "model_says_diverges_but_code_returned": stats["model_disagreements"][:20],
+        "machine_vs_loop_model": {"shapes": machine_rows, "disagreements": len(machine_bad)},
         "translator": tr_lines, "samples": stats["samples"], "slowest": stats["slowest"][:8],
         "axioms": pr.get("axioms", {}), "proof_failures": ["%s: %s" % f for f in pr["failed"]],
     })
